@@ -534,7 +534,7 @@ func TestC18(t *testing.T) {
 	st.mu.Lock()
 	st.Exhaustive = thorough
 	st.mu.Unlock()
-	st.Note("enumeration", fmt.Sprintf("shard %d/%d visited %d of %d feature vectors, each at 4 placements", shard, nshards, n, total))
+	st.Note("enumeration", fmt.Sprintf("shard %d/%d visited %d of %d feature vectors, each at 6 placements", shard, nshards, n, total))
 }
 
 // tableWithWord reports whether a <table> of the output contains the word.
